@@ -739,3 +739,56 @@ def run_taguse(chk, F, rid="R-TAGUSE"):
                                     for c in calls(rs["body"]))
         chk.ob(rid, "exempt|result-skipped", ok, "XMLReader::result() no longer skips the content of <result> with "
                "close(RESULT): the listed tags inside it would stop the descent", "src/xmlreader.cpp")
+
+
+# ------------------------------------------------------------------------------------------ R-WHOLETEXT
+TEXT_SOURCES = ("xmlTextReaderConstValue", "xmlTextReaderValue")
+SPLITTERS = ("XML_READER_TYPE_COMMENT", "XML_READER_TYPE_PROCESSING_INSTRUCTION")
+
+
+def run_wholetext(chk, F, rid="R-WHOLETEXT"):
+    """The character data of an element is the concatenation of all its text nodes: a comment or a processing
+    instruction between them splits it (TEXT, COMMENT, TEXT).  A reader that takes the value of the one node after the
+    start tag uses the first piece as if it were the whole declaration / label / parameter list and skips the rest
+    without a word.  Structural rule: the reader's node value is read only inside a loop that advances the reader and
+    that names the comment and processing-instruction node types (which it passes over); everyone else goes through the
+    function containing that loop."""
+    chk.rule(rid, "every xmlTextReaderConstValue / xmlTextReaderValue call of the XML reader sits in a loop that advances "
+                  "the reader and passes over comment and processing-instruction nodes (the one place that gathers the "
+                  "character data of an element); no reader of text takes the value of a single node")
+    n = 0
+    gatherers = set()
+    seen_keys = {}
+    for fn in sorted(F.functions.values(), key=lambda f: (f.get("file") or "", f.get("line") or 0)):
+        if fn.get("body") is None or not (fn.get("file") or "").endswith("src/xmlreader.cpp"):
+            continue
+        loops = [x for x in walk(fn["body"]) if x.get("k") in ("while", "for", "do")]
+        inside = {}
+        for lp in loops:
+            for z in walk(lp):
+                inside.setdefault(id(z), []).append(lp)
+        for c in calls(fn["body"]):
+            if c.get("name") not in TEXT_SOURCES:
+                continue
+            n += 1
+            ok, why = False, "it is not inside any loop: the value of one node is taken as the whole content"
+            for lp in inside.get(id(c), []):
+                adv = any(z.get("name") in ("read", "xmlTextReaderRead") for z in calls(lp))
+                names = {z.get("name") for z in walk(lp) if z.get("k") == "ref" and z.get("dk") == "enumerator"}
+                # macros from libxml2 expand to integer constants in some configurations: accept the spelled test too
+                missing = [s_ for s_ in SPLITTERS if s_ not in names]
+                if adv and not missing:
+                    ok = True
+                    gatherers.add(fn["name"])
+                    break
+                why = ("the enclosing loop does not advance the reader" if not adv else
+                       "the enclosing loop does not name %s: such a node ends the text" % " / ".join(missing))
+            seen_keys[(fn["name"], c.get("name"))] = seen_keys.get((fn["name"], c.get("name")), 0) + 1
+            k_ = seen_keys[(fn["name"], c.get("name"))]
+            chk.ob(rid, "%s|%s" % (fn["name"], c.get("name")) + ("" if k_ == 1 else "#%d" % k_), ok,
+                   "%s takes %s() where %s - `<declaration>int g; <!-- note --> int h;</declaration>` declares g "
+                   "only, a guard `x &lt; 5 <!-- and --> &amp;&amp; y &gt; 2` becomes `x < 5`" % (fn["q"], c.get("name"), why),
+                   "%s:%s" % (fn["file"], c.get("l")))
+    if n < 1:
+        raise AnalysisBroken("%s: the XML reader does not read any node value (anchor gone)" % rid)
+    chk.analysed[rid] = {"value_reads": n, "gathering_functions": sorted(gatherers)}
